@@ -31,18 +31,25 @@ PROPS['C13'] = {
              'the order equals comparison of a single natural-number key (hence total, antisymmetric, transitive, consistent with ==, '
              'more-specific first), route origins compare lexicographically with consistent ==/hash input, and SmallAsnSet construction '
              'and its four merge iterators equal the mathematical set operations for all lists. The whole FamilyAndLen table is decided by '
-             'the kernel. Text round trip is carried by the correspondence only (std address formatting is not modelled).',
+             'the kernel. Text forms (session 12): Display and FromStr of Prefix (strict and relaxed), MaxLenPrefix and Asn are modelled on octets '
+             '(Model/PfxText.lean over the address text model of C03) and every value a constructor makes is read back from its own text '
+             '(prefix_text_roundtrip, prefix_text_injective, maxlen_text_roundtrip, asn_text_roundtrip).',
     'note': 'Bit operations (mask, trailing_zeros, shifts) are rendered as Nat div/mod by powers of two; that rendering, Vec::sort/dedup '
-            '(modelled as insertion sort + adjacent dedup) and std IpAddr Display/FromStr are validated by the differential run only. '
+            '(modelled as insertion sort + adjacent dedup) are validated by the differential run only; std IpAddr Display/FromStr and u8::from_str are '
+            'modelled from their documentation (Model/ResText.lean) and compared with the library on every written and every mutated text (ops pfmt, ptext: '
+            'the four parsers with their error kinds). '
             'Constants of FamilyAndLen and the presence of dedup() are regenerated from the source on every run.',
     'shards': {'quick': 4, 'thorough': 16},
     'budget': {'quick': 600, 'thorough': 7200},
     'rule': 'constructors over (boundary address domain: single run boundary at every bit position +-1) x lengths 0..255; covers/cmp on '
             'pairs from a pool biased to nested/adjacent prefixes (thorough: all pairs of a ~480-prefix pool); transitivity triples on the '
             'implementation; max-len 0..255/absent; origins; all AS sequences of length <=4 (thorough 5) over a 6-value domain incl. 0 and '
-            'u32::MAX with duplicates; all 64x64 subset pairs x 4 set operations; random larger sets.',
+            'u32::MAX with duplicates; all 64x64 subset pairs x 4 set operations; random larger sets; text: Display of every pool prefix / max-length '
+            'prefix / AS number byte for byte against the model, ~100 hand-made texts (signs, leading zeros, lengths around the family maximum, '
+            'IPv4-mapped and compressed IPv6 forms, non-ASCII) and mutants of all written texts through Prefix::from_str, from_str_relaxed, '
+            'MaxLenPrefix::from_str and Asn::from_str.',
     'trusted_base': ['u128/u8 bit operations rendered in Nat arithmetic (validated by the differential run, not proved)'],
-    'assumptions': ['std::net address text formatting/parsing is exercised, not modelled'],
+    'assumptions': ['std::net address text formatting/parsing and u8::from_str are modelled from their documentation and compared on every case, not verified'],
 }
 
 PROPS['C12'] = {
